@@ -48,6 +48,12 @@ def run(chk, repo):
     chk.doc("R01.4", "format -> access size and computation width (shared "
                      "with C01)")
     r4_formats(chk, repo, d)
+    from .c01 import store_immediate, r5_endian
+    chk.doc("R01.7", "immediate stores (shared with C01)")
+    store_immediate(chk, repo, d)
+    chk.doc("R01.5", "byte-swapped loads are sign-extended again (shared "
+                     "with C01)")
+    r5_endian(chk, repo, d)
 
 
 class View:
